@@ -63,7 +63,8 @@ package m3
 //@   property C14
 //@   emits
 //@   requires repWF(r)
-//@   modifies r.numBatches, r.numMetrics, r.numWriteErrors
+//@   acquires r.tagCache.mtx
+//@   modifies r.numBatches, r.numMetrics, r.numWriteErrors, r.tagCache.entries
 //@   ensures @shutdown_state_untouched r.done == old(r.done) && r.pending == old(r.pending)
 
 //@ func (*reporter).reportCopyMetric
@@ -81,7 +82,8 @@ package m3
 //@   property C14
 //@   emits
 //@   requires repWF(r)
-//@   modifies r.pending, r.numBatches, r.numMetrics, r.numWriteErrors
+//@   acquires r.tagCache.mtx
+//@   modifies r.pending, r.numBatches, r.numMetrics, r.numWriteErrors, r.tagCache.entries
 //@   case closed: requires r.done && r.pending < 9223372036854775807
 //@     ensures @noop_after_close quiet() && r.pending == old(r.pending)
 //@   case open: requires !r.done && r.pending < 9223372036854775807 && !closed(r.metCh)
